@@ -2,6 +2,7 @@ package oracle
 
 import (
 	"net/http"
+	"strings"
 	"time"
 )
 
@@ -80,6 +81,10 @@ func AgeValueBounds(s Stored) Bounds {
 	}
 	b := Bounds{Low: Forever, High: 0, Note: "age:origin"}
 	for _, v := range vs {
+		// of a list-based value the first member counts (RFC 9111 §5.1)
+		if first, _, list := strings.Cut(v, ","); list {
+			v = strings.TrimSpace(first)
+		}
 		d, ok := ParseDeltaSeconds(v)
 		if !ok {
 			return Bounds{0, Forever, "age:invalid"}
